@@ -233,7 +233,8 @@ LineClasses == {"comment", "blank", "version", "cid", "parent", "ddb", "ddb2", "
                 "extent_rdonly", "extent_noaccess", "extent_path", "extent_relpath", "junk",
                 \* junk_rwx: begins with an access keyword without being one ("RWX 2048 ...")
                 "junk_eq_space", "junk_rwx", "ct_mono", "ct_stream", "ct_upper", "ct_flat", "ct_vmfs",
-                "ct_long", "ct_unterminated", "nonascii"}
+                "ct_long", "ct_unterminated", "nonascii",
+                "nonascii_start"}     \* a line that is one byte above 127 (nothing before it on its line)
 CtLines == {"ct_mono", "ct_stream", "ct_upper", "ct_flat", "ct_vmfs", "ct_long", "ct_unterminated"}
 CtOk == {"ct_mono", "ct_stream", "ct_upper"}
 Extents == {"extent_rw", "extent_rdonly", "extent_noaccess", "extent_path", "extent_relpath"}
@@ -266,6 +267,8 @@ VmdkLayouts ==
 \cup {[M0 EXCEPT !.lines = Repl(Repl(StdLines, 5, a), 7, b)] : a \in LineClasses, b \in LineClasses}
      \* an extra line of every class at the end; no extent; no createType
 \cup {[M0 EXCEPT !.lines = Append(StdLines, a)] : a \in LineClasses}
+     \* what follows a byte that does not decode is not read at all: nothing behind it can make the image acceptable
+\cup {[M0 EXCEPT !.lines = StdLines \o <<"nonascii_start", a>>] : a \in {"extent_path", "junk", "blank", "extent_rw"}}
 \cup {[M0 EXCEPT !.lines = <<>>], [M0 EXCEPT !.lines = <<"ct_mono">>],
       [M0 EXCEPT !.lines = <<"extent_rw">>], [M0 EXCEPT !.lines = <<"ct_mono", "extent_rw">>]}
 \cup {[M0 EXCEPT !.total = t, !.footer = f] :
@@ -280,7 +283,7 @@ VmdkDescFails(L) ==
       S == SeqSet(q)
       cts == {i \in 1..Len(q) : q[i] \in CtLines}
       first == IF cts = {} THEN "none" ELSE q[CHOOSE i \in cts : \A j \in cts : i <= j]
-      bad == \/ "nonascii" \in S                       \* descriptor does not decode
+      bad == \/ S \cap {"nonascii", "nonascii_start"} # {}   \* descriptor does not decode
              \/ first \notin CtOk                      \* missing / unsupported createType
              \/ S \cap {"junk", "junk_eq_space", "junk_rwx"} # {}  \* a line that is not understood
              \/ S \cap {"extent_path", "extent_relpath"} # {}
@@ -290,7 +293,7 @@ VmdkDescFails(L) ==
 VmdkTypeOk(L) ==
   LET q == L.lines
       cts == {i \in 1..Len(q) : q[i] \in CtLines}
-  IN /\ "nonascii" \notin SeqSet(q) /\ cts # {} /\ DescNumBytes(L.desc_num) > 0
+  IN /\ SeqSet(q) \cap {"nonascii", "nonascii_start"} = {} /\ cts # {} /\ DescNumBytes(L.desc_num) > 0
      /\ q[CHOOSE i \in cts : \A j \in cts : i <= j] \in CtOk
 VmdkRef(L) ==
   LET dsize == DescNumBytes(L.desc_num)
@@ -365,6 +368,11 @@ HostileLayouts ==
          il \in {"8", "65536", "65537", "2^32-1"}, mc \in {-1, 2047, 2048, 65535}, mp \in {0, 2046},
          mo \in {256 * KiB, 1024 * KiB}}
 \cup {[X0 EXCEPT !.rcount = rc, !.rpad = rp, !.total = Big] : rc \in {2047, 2048, 65535}, rp \in {0, 2046}}
+     \* a refused header (descriptor not at sector 1) announcing a huge descriptor: what was registered before the refusal
+\cup {[M0 EXCEPT !.desc_sec = ds, !.desc_num = dn, !.total = Big] : ds \in {"2", "2^55"}, dn \in {"2048", "2^55", "2^64-1"}}
+     \* the size item inside the table window (before, at and behind the entries), with and without padding entries
+\cup {[X0 EXCEPT !.item_off = io, !.item_len = il, !.mpad = mp, !.total = Big] :
+         io \in {96, 4096, 32768}, il \in {"8", "2^32-1"}, mp \in {0, 100}}
 \cup {[X0 EXCEPT !.item_flags = fl, !.item_len = il, !.total = Big, !.meta_off = mo] :
          fl \in {"1", "6", "7", "2^32-1"}, il \in {"65537", "2^32-1"}, mo \in {256 * KiB, 1024 * KiB}}
 \cup {[X0 EXCEPT !.meta_len = ml, !.item_off = io, !.item_len = il, !.total = Big] :
